@@ -27,6 +27,8 @@ struct Op
 	int64_t number = 0;       // convert
 	double real = 0;
 	std::u32string text;
+	bool ownOptions = false;  // operations on own data may run with their own options (separator, policies), different per thread
+	SerializationOptions options;
 };
 
 struct Shared
@@ -59,7 +61,7 @@ static std::string Summ(const CallResult& r, const std::string& payload)
 static std::string Execute(const Op& op, const Shared& sh)
 {
 	ArchiveOps& ops = GetOps(op.archive);
-	const SerializationOptions& o = sh.options;
+	const SerializationOptions& o = op.ownOptions ? op.options : sh.options;
 	switch (op.kind)
 	{
 	case OP_SAVE_OWN:
@@ -223,17 +225,28 @@ Outcome RunC19(RunCtx& ctx)
 			g.allowEmptyContainers = op.archive != A_CSV;
 			if (op.kind == OP_SAVE_OWN || op.kind == OP_LOAD_OWN || op.kind == OP_LOAD_INVALID || op.kind == OP_LOAD_CORRUPT)
 			{
+				op.ownOptions = s.chance(sim::L_CFG, 1, 2);
+				if (op.ownOptions)
+				{
+					op.options = GenLoadOptions(s, sim::L_CFG, op.archive);
+					if (op.archive != A_CSV && op.archive != A_MSGPACK && s.chance(sim::L_CFG, 1, 2))
+					{
+						op.options.formatOptions.enableFormat = true;
+						op.options.formatOptions.paddingChar = s.chance(sim::L_CFG, 1, 2) ? ' ' : '\t';
+						op.options.formatOptions.paddingCharNum = static_cast<uint16_t>(1 + s.draw(sim::L_CFG, 4));
+					}
+				}
 				op.doc = GenDocument(s, sim::L_DOC, g);
 				if (op.kind != OP_SAVE_OWN)
 				{
-					(void)SaveDynWith(GetOps(op.archive), op.doc, op.bytes, sh.options, OutCfg{});
+					(void)SaveDynWith(GetOps(op.archive), op.doc, op.bytes, op.ownOptions ? op.options : sh.options, OutCfg{});
 					if (op.kind == OP_LOAD_CORRUPT) (void)CorruptOnce(s, sim::L_FAULT, op.bytes, op.archive == A_MSGPACK, ctx);
 				}
 			}
 			op.number = GenSigned(s, sim::L_DOC, 64);
 			op.real = static_cast<double>(s.range(sim::L_DOC, -100000, 100000)) / 16.0;
 			op.text = GenText(s, sim::L_DOC, TextProfile::Any, 30);
-			plan += "t" + std::to_string(t) + ":" + OpName(op.kind) + "/" + ArchiveName(op.archive) + (op.stream ? "/stream " : "/mem ");
+			plan += "t" + std::to_string(t) + ":" + OpName(op.kind) + "/" + ArchiveName(op.archive) + (op.stream ? "/stream" : "/mem") + (op.ownOptions ? "/sep" + std::to_string(static_cast<int>(op.options.valuesSeparator)) + " " : " ");
 			work[t].ops.push_back(std::move(op));
 		}
 		work[t].results.resize(work[t].ops.size());
